@@ -16,7 +16,7 @@ REPO = os.environ.get('VERIF_REPO', '/repo')
 TOOLCHAIN = '1.98.1-x86_64-unknown-linux-gnu'
 CACHE = os.path.join(VERIF, '.cache')
 
-UNITS = ['base', 'name', 'compress', 'cstring', 'typed', 'overrides', 'hand_types', 'macros', 'codes', 'records', 'header', 'packet', 'fmt']
+UNITS = ['base', 'name', 'compress', 'cstring', 'typed', 'overrides', 'hand_types', 'macros', 'codes', 'records', 'header', 'packet', 'fmt', 'owned']
 
 def sh(cmd, **kw):
     return subprocess.run(cmd, capture_output=True, text=True, **kw)
